@@ -10,11 +10,11 @@ from harness import apr, asmfam
 
 def run(ctx) -> None:
     q = ctx.quick
-    fams = [("ctl", 5 if q else 6), ("assignleak", 5 if q else 6), ("shadowloop2", 5 if q else 7)]
+    fams = [("ctl", 5 if q else 6), ("assignleak", 5 if q else 6), ("shadowloop2", 5 if q else 7), ("splice", 6 if q else 7)]
     ctx.rule = ("programs = every program over the 'ctl' alphabet of MC_Asm (<= %d statements: .if over 1/0/-1/constant/undefined "
                 "name with and without else, .for over empty/single/many ranges and a constant bound, labels and data using "
                 "the loop variable, one level of nesting), the 'assignleak' (:= inside loop/macro/block bodies over an outer constant) and "
-                "'shadowloop2' (loop variable named like an outer constant) alphabets + seeded APR trees; non-trivial = programs with an .if or .for" % fams[0][1])
+                "'shadowloop2' (loop variable named like an outer constant) and 'splice' ({{p}} inside nested scopes, loops and conditionals of a macro body) alphabets + seeded APR trees; non-trivial = programs with an .if or .for" % fams[0][1])
     ctx.trusted = ["TLC 1.8", "spec/Asm.tla expansion (XStmt if/for, XLoop)", "harness/apr.py renderer"]
     ctx.assumptions = ["labels / `=` names / loop variables inside .if conditions and .for bounds are not generated (§8)"]
     n = 400 if q else 6000
